@@ -69,7 +69,7 @@ def _def_swallows(src: str) -> bool:
             return False
         if n == "FootnoteDef" and inside and sum(1 for k in kids if type(k).__name__ != "BlankLine") > 1:
             return True
-        return any(walk(k, inside or n in ("Quote", "ListItem", "Alert")) for k in kids)
+        return any(walk(k, inside or n in ("Quote", "ListItem", "Alert", "CustomAlert")) for k in kids)
     return walk(doc, False)
 
 
